@@ -538,6 +538,60 @@ fn same_thread_part(t: &mut Tally) {
     t.count("same_thread_interleavings", k);
 }
 
+/// A muxer whose finish fails (every write call of its fault-free run failing in turn, or cut
+/// short after half a buffer) must leave nothing behind for the next muxer on the same thread:
+/// each victim program is run after the failed neighbour - either entirely, or with only its
+/// finish (and later calls) after it - and compared with its solo run.
+fn failed_neighbour_part(t: &mut Tally) {
+    use crate::faults::{histories, run_faulty, Ans, Script};
+    let progs = programs();
+    let mut victims: Vec<(String, Cfg, Vec<Op>)> = progs.iter().map(|p| (p.name.to_string(), p.cfg.clone(), calls_of(p))).collect();
+    let hs = histories();
+    let mut k = 0u64;
+    for (name, cfg, ops) in &hs {
+        let mut ops = ops.clone();
+        if !ops.iter().any(|o| o.is_finish()) {
+            ops.push(Op::FinishInPlace);
+        }
+        let calls = run_faulty(cfg, &ops, &Script::default()).log.len();
+        // the neighbour's own history, fault-free, is a victim too (same configuration: a cache
+        // keyed by configuration or sizes would collide)
+        victims.truncate(progs.len());
+        victims.push((format!("{name} (fault-free twin)"), cfg.clone(), ops.clone()));
+        let solos: Vec<(Vec<String>, Vec<u8>)> = victims
+            .iter()
+            .map(|(_, c, o)| {
+                let ex = crate::run::run(c, o);
+                (ex.results.iter().map(res_str).collect(), ex.bytes)
+            })
+            .collect();
+        for call in 0..calls {
+            for script in [Script { answers: vec![(call, Ans::ErrOther)], budget: None }, Script { answers: vec![(call, Ans::Half), (call + 1, Ans::ErrKind(21))], budget: None }] {
+                for (vi, (vname, vcfg, vops)) in victims.iter().enumerate() {
+                    let split_at = vops.iter().position(|o| o.is_finish()).unwrap_or(vops.len());
+                    for split in [0usize, split_at] {
+                        k += 1;
+                        t.evaluations += 1;
+                        t.states += 1;
+                        let s = RecSink::default();
+                        let st = s.0.clone();
+                        let mut m = builder(vcfg, s).build().ok();
+                        let mut r: Vec<String> = vops[..split].iter().map(|o| res_str(&apply(&mut m, o))).collect();
+                        let failed = run_faulty(cfg, &ops, &script);
+                        r.extend(vops[split..].iter().map(|o| res_str(&apply(&mut m, o))));
+                        t.transitions += (vops.len() + ops.len()) as u64;
+                        let b = st.borrow().bytes.clone();
+                        if (r, b) != solos[vi] {
+                            t.violation("C17/failed-neighbour-on-the-thread-changes-output", (300, k), || format!("{vname} run on the thread on which {name} had just failed at sink write call {call} ({:?}; neighbour's last result {:?}) differs from its solo run (victim calls before the neighbour: {split})", script.answers, failed.results.last().map(res_str)), || json!({"engine": "E4-failed-neighbour", "neighbour": name, "victim": vname, "call": call, "split": split}));
+                        }
+                    }
+                }
+            }
+        }
+    }
+    t.count("failed_neighbour_runs", k);
+}
+
 // ---------------------------------------------------------------------------------------------
 // equivalent API paths, sink types, move between threads
 // ---------------------------------------------------------------------------------------------
@@ -1129,6 +1183,7 @@ pub fn check(ctx: &Ctx) -> i32 {
         return 2;
     }
     same_thread_part(&mut tally);
+    failed_neighbour_part(&mut tally);
     // equivalent paths over a history set
     let (nv, na) = if ctx.thorough { (3, 2) } else { (2, 2) };
     let mut items = vec![];
